@@ -181,6 +181,33 @@ CLAIMED.update({
              "reclaimer task itself terminates (device reads/writes complete) is the oracle's observation; completion orders of "
              "concurrent block writes are exercised, not enumerated; open finding F10 (reinserted entries and recovery) is "
              "reported as KNOWN-FINDING."),
+    "C02": dict(
+        text="Proved: the specification (an atomic register per key whose reads may additionally miss), linearizability of "
+             "a concurrent history over invocation/response stamps, and the soundness of the history checker - it never "
+             "rejects a linearizable history, so each rejection is a genuine violation; and the mechanism: operations that take "
+             "effect atomically at one point inside their interval, in an order that follows the specification, give a "
+             "linearizable history. Checked on the real cache: per-thread programs (2..4 threads; insert, remove, get, contains, "
+             "touch, get_or_fetch, clear, resize, evict_all) released by a barrier with randomised yields/spins, all five "
+             "algorithms, 1..4 shards, keys sharing and spanning shards, zero / mixed weights, a rejecting filter; every "
+             "round's history is projected on each key and given to the extracted checker; entry handles are re-read at the end "
+             "of every round.",
+        ref="4/C02", tech="Coq proof (soundness of the extracted history checker; atomic-effects theorem) + concurrent runs of "
+                          "the real cache checked by the extracted checker",
+        note="PARTIAL by nature: that the real operations are atomic under the shard lock is tested on the schedules the OS "
+             "produces (thousands of rounds), not proved and not enumerated; the checker is sound but not complete (it examines "
+             "each read on its own). Found and fixed F16 (an insert overtaken by an older fetch result)."),
+    "C16": dict(
+        text="Theorem on the lock-phase model of an API call (weighter/filter before the shard lock, listener and destructors "
+             "after the guard is dropped): every tree of re-entrant calls, of any shape and depth, entered without the lock "
+             "returns without it; with callbacks inside the critical section any callback that uses the cache blocks. Checked on "
+             "the real cache: listener, weighter, filter and value destructor all call back into the same single-shard cache "
+             "(get, contains, insert, remove, nested one level), all five algorithms, 1..3 threads, capacities 1..3, phantom "
+             "inserts, under a watchdog.",
+        ref="4/C16", tech="Coq proof (lock-phase model) + re-entrant concurrent runs of the real cache under a deadlock watchdog",
+        note="PARTIAL: the model states the discipline; that every code path follows it is what the re-entrant runs test "
+             "(a callback invoked under the lock deadlocks deterministically on a single shard, as seeded changes C16-m1/m2 "
+             "show); lock-order cycles between different locks (shard, in-flight table, keeper) are exercised by the "
+             "multi-threaded runs only; the hybrid cache's callbacks are covered through the memory tier."),
 })
 
 NOT_YET = "machinery for this property is not built yet in this session (design in DESIGN.md section 4)"
